@@ -184,6 +184,7 @@ fn shard(ctx: &Ctx, ifaces: &[&'static IfaceDesc], shard: usize, cases: u64) -> 
             }
             acc.res.evaluations += 1;
             acc.pendings += out.pendings;
+            acc.res.sample(|| J::obj(vec![("iface", J::s(iface.name)), ("messages", J::strs(msgs.iter().map(|m| esc(&m.bytes)))), ("delivery", J::s(delivery)), ("pend_seed", pend.into()), ("events", out.log.len().into())]));
             *acc.by_delivery.entry(delivery).or_default() += 1;
             let got = streams(&out.log);
             let mut bad: Option<(String, String)> = None;
@@ -334,7 +335,9 @@ pub fn run(ctx: &Ctx) -> PropResult {
     res.cov("run_logs_order_checked", ord);
     res.cov("pending_returns_injected", pend);
     res.cov("executions_by_delivery", J::Obj(by_delivery.into_iter().map(|(k, v)| (k.to_string(), J::Int(v as i64))).collect()));
-    res.samples = vec![J::s("[\"A:B 1;C;*RST;:B:A? ON;C #13abc;\\n\", \"C\\n\"] as one run buffer")];
+    res.samples.truncate(5);
+    let described: Vec<J> = vec![J::s("[\"A:B 1;C;*RST;:B:A? ON;C #13abc;\\n\", \"C\\n\"] as one run buffer")];
+    res.samples.extend(described.into_iter().take(1));
     res.assumptions = vec!["after a unit that fails at execution, either all or none of the later units may run (C06); when they run they must resolve relative to the failed unit's header".into()];
     if rel == 0 || com == 0 || und == 0 || tr == 0 {
         res.inconclusive = Some("a unit class was never generated".into());
